@@ -1,13 +1,18 @@
 (* C04 — MySQL: emitted DDL is executable in order and leaves the declared schema; every MODIFY keeps the
-   column's current type, nullability and default (section 6: all attributes at once).  Pinned statements only.
+   column's current type, nullability and default (section 6: all attributes at once, AUTO_INCREMENT and COMMENT
+   included since fix N1).  Pinned statements only.
    Engine = the MySQL catalog MODEL of Model/Engine.v (modelled, not verified: no server in the sandbox). *)
 From VV.MYSQL Require Import Spec SpecKeys SpecCreate SpecFk ModifyP WitnessP SimP SimKeysP SimCreateP SimFkP SimRemoveP SimRenameP SimAllP SpecPending SimPendP SimPend2P ModifyAllP SimDeleteKeysP SimRenameNamedP.
 
 (* ------------------------------------------------------------------------------------------------------
    1. The history-dependent part, for ALL inputs: the MODIFY COLUMN emitted for a ModifyColumn{Type,
       Nullable,Default,Comment} action on an existing column re-declares exactly the (type text, nullability,
-      default text) the column has in the schema after the action; it never carries AUTO_INCREMENT or
-      PRIMARY KEY, and carries a COMMENT only for ModifyColumnComment. *)
+      default text) the column has in the schema after the action; it carries AUTO_INCREMENT exactly when the column
+      is in an auto-increment primary key of its table and the (new) type supports it, never an inline PRIMARY KEY,
+      and the COMMENT literal of the column's comment (comment_body).
+      History: until fix N1 (restate_mysql_column_attributes) the conclusion was "cd_auto d = false /\ cd_comment d =
+      the new comment for ModifyColumnComment, None otherwise" — findings C04-autoinc-lost-on-modify and
+      C04-comment-lost-on-modify, both fixed. *)
 Theorem C04_modify_preserves : forall s P a t c col s',
   modify_target a = Some (t, c) ->
   lookup_column s t c = Some col ->
@@ -19,7 +24,8 @@ Theorem C04_modify_preserves : forall s P a t c col s',
     lookup_column s' t c = Some col' /\
     cd_name d = c /\
     restated d = declared col' /\
-    cd_auto d = false /\ cd_pk d = false /\ cd_comment d = modify_comment a.
+    cd_auto d = (is_auto_col s t c && supports_auto_increment (c_type col'))%bool /\ cd_pk d = false /\
+    cd_comment d = comment_body a col'.
 Proof. exact modify_preserves. Qed.
 Print Assumptions C04_modify_preserves.
 Check C04_modify_preserves : forall s P a t c col s',
@@ -33,7 +39,8 @@ Check C04_modify_preserves : forall s P a t c col s',
     lookup_column s' t c = Some col' /\
     cd_name d = c /\
     restated d = declared col' /\
-    cd_auto d = false /\ cd_pk d = false /\ cd_comment d = modify_comment a.
+    cd_auto d = (is_auto_col s t c && supports_auto_increment (c_type col'))%bool /\ cd_pk d = false /\
+    cd_comment d = comment_body a col'.
 
 (* lifted through the evolving schema of build_plan_queries: action i of any plan *)
 Theorem C04_modify_preserves_plan : forall s acts L i a t c col s',
@@ -48,7 +55,8 @@ Theorem C04_modify_preserves_plan : forall s acts L i a t c col s',
     forallb is_update pre = true /\
     lookup_column (schema_at s acts (S i)) t c = Some col' /\
     cd_name d = c /\ restated d = declared col' /\
-    cd_auto d = false /\ cd_pk d = false /\ cd_comment d = modify_comment a.
+    cd_auto d = (is_auto_col (schema_at s acts i) t c && supports_auto_increment (c_type col'))%bool /\ cd_pk d = false /\
+    cd_comment d = comment_body a col'.
 Proof. exact modify_preserves_plan. Qed.
 Print Assumptions C04_modify_preserves_plan.
 Check C04_modify_preserves_plan : forall s acts L i a t c col s',
@@ -63,7 +71,8 @@ Check C04_modify_preserves_plan : forall s acts L i a t c col s',
     forallb is_update pre = true /\
     lookup_column (schema_at s acts (S i)) t c = Some col' /\
     cd_name d = c /\ restated d = declared col' /\
-    cd_auto d = false /\ cd_pk d = false /\ cd_comment d = modify_comment a.
+    cd_auto d = (is_auto_col (schema_at s acts i) t c && supports_auto_increment (c_type col'))%bool /\ cd_pk d = false /\
+    cd_comment d = comment_body a col'.
 
 (* lifted over histories of any length: migration k of a history that replays, action i of it *)
 Theorem C04_modify_preserves_history : forall (H : list plan) k p sb L i a t c col s_i s',
@@ -81,7 +90,8 @@ Theorem C04_modify_preserves_history : forall (H : list plan) k p sb L i a t c c
     forallb is_update pre = true /\
     lookup_column s' t c = Some col' /\
     cd_name d = c /\ restated d = declared col' /\
-    cd_auto d = false /\ cd_pk d = false /\ cd_comment d = modify_comment a.
+    cd_auto d = (is_auto_col s_i t c && supports_auto_increment (c_type col'))%bool /\ cd_pk d = false /\
+    cd_comment d = comment_body a col'.
 Proof. exact modify_preserves_history. Qed.
 Print Assumptions C04_modify_preserves_history.
 Check C04_modify_preserves_history : forall (H : list plan) k p sb L i a t c col s_i s',
@@ -99,7 +109,8 @@ Check C04_modify_preserves_history : forall (H : list plan) k p sb L i a t c col
     forallb is_update pre = true /\
     lookup_column s' t c = Some col' /\
     cd_name d = c /\ restated d = declared col' /\
-    cd_auto d = false /\ cd_pk d = false /\ cd_comment d = modify_comment a.
+    cd_auto d = (is_auto_col s_i t c && supports_auto_increment (c_type col'))%bool /\ cd_pk d = false /\
+    cd_comment d = comment_body a col'.
 
 (* the hypothesis modify_default_ok cannot be dropped: ModifyColumnType to an enum re-quotes a kept non-string
    default ('1' against 1); the engine model treats the two as the same default (norm_default) *)
@@ -119,47 +130,46 @@ Check C04_modify_type_requotes_refuted : exists s a t c col s' d col',
   modify_default_ok a col = false /\
   gen s [] a = Ok [SModifyColumn t d] /\ lookup_column s' t c = Some col' /\ restated d <> declared col'.
 
-(* D19 for all inputs: no MODIFY COLUMN the generator emits ever carries AUTO_INCREMENT (or PRIMARY KEY) *)
-Theorem C04_modify_never_restates_autoinc : forall s P a st t d,
-  gen s P a = Ok st -> In (SModifyColumn t d) st -> cd_auto d = false /\ cd_pk d = false.
-Proof. exact modify_never_restates_autoinc. Qed.
-Print Assumptions C04_modify_never_restates_autoinc.
-Check C04_modify_never_restates_autoinc : forall s P a st t d,
-  gen s P a = Ok st -> In (SModifyColumn t d) st -> cd_auto d = false /\ cd_pk d = false.
-
-(* ... and the consequence on the engine: a comment change on an auto-increment key column removes the
-   attribute while the baseline keeps it (D19 witness = corpus/mysql/d19_modify_autoinc.json) *)
-Theorem autoincrement_lost_refuted : exists s a t c st s' cat,
+(* History (DESIGN D19, finding C04-autoinc-lost-on-modify, fixed by N1).  Pinned here until the fix:
+     C04_modify_never_restates_autoinc : forall s P a st t d,
+       gen s P a = Ok st -> In (SModifyColumn t d) st -> cd_auto d = false /\ cd_pk d = false
+     autoincrement_lost_refuted : a comment change on the auto-increment key column (corpus/mysql/d19_modify_autoinc.json)
+       left col_auto = Some false in the engine against Some true in the baseline.
+   The same witness now: the MODIFY restates AUTO_INCREMENT, the engine keeps the attribute, the migration holds. *)
+Theorem C04_autoinc_kept_on_modify : exists s a t c st s' cat,
   judged s [a] = true /\ modify_target a = Some (t, c) /\ is_auto_col s t c = true /\
   gen s [] a = Ok st /\ apply_action s a = Ok s' /\ run (catalog_of s) st = RunOk cat /\
-  col_auto (catalog_of s) t c = Some true /\ col_auto cat t c = Some false /\ col_auto (catalog_of s') t c = Some true /\
-  catalog_eqb cat (catalog_of s') = false /\ known_C04_autoinc_lost s [a] = true.
+  col_auto (catalog_of s) t c = Some true /\ col_auto cat t c = Some true /\ col_auto (catalog_of s') t c = Some true /\
+  catalog_eqb cat (catalog_of s') = true /\ migration_ok s [a] = true.
 Proof.
   exists w_d19_schema, w_d19_action, "t", "id". eexists. eexists. eexists.
   repeat split; vm_compute; reflexivity.
 Qed.
-Print Assumptions autoincrement_lost_refuted.
-Check autoincrement_lost_refuted : exists s a t c st s' cat,
+Print Assumptions C04_autoinc_kept_on_modify.
+Check C04_autoinc_kept_on_modify : exists s a t c st s' cat,
   judged s [a] = true /\ modify_target a = Some (t, c) /\ is_auto_col s t c = true /\
   gen s [] a = Ok st /\ apply_action s a = Ok s' /\ run (catalog_of s) st = RunOk cat /\
-  col_auto (catalog_of s) t c = Some true /\ col_auto cat t c = Some false /\ col_auto (catalog_of s') t c = Some true /\
-  catalog_eqb cat (catalog_of s') = false /\ known_C04_autoinc_lost s [a] = true.
+  col_auto (catalog_of s) t c = Some true /\ col_auto cat t c = Some true /\ col_auto (catalog_of s') t c = Some true /\
+  catalog_eqb cat (catalog_of s') = true /\ migration_ok s [a] = true.
 
-(* observation (not a finding: comments are outside the compared catalog): the next MODIFY of another kind
-   erases the comment *)
-Theorem C04_comment_lost_observation : exists s a1 a2 t c d1 d2 s',
+(* History (finding C04-comment-lost-on-modify, fixed by N1): C04_comment_lost_observation pinned that the MODIFY of a
+   default change after a comment change carried no COMMENT.  Now both carry it, each in its own escaping, and MySQL
+   reads the same text from both *)
+Theorem C04_comment_kept_observation : exists s a1 a2 t c d1 d2 s',
   gen_plan s [a1; a2] = Ok [[SModifyColumn t d1]; [SModifyColumn t d2]] /\ apply_all s [a1; a2] = Ok s' /\
-  cd_comment d1 = Some "note" /\ cd_comment d2 = None /\
-  option_map c_comment (lookup_column s' t c) = Some (Some "note").
+  cd_comment d1 = Some "it''s" /\ cd_comment d2 = Some "it\'s" /\
+  option_map mysql_unescape (cd_comment d1) = Some "it's" /\ option_map mysql_unescape (cd_comment d2) = Some "it's" /\
+  option_map c_comment (lookup_column s' t c) = Some (Some "it's").
 Proof.
-  exists w_comment_schema, (ModifyColumnComment "t" "name" (Some "note")), (ModifyColumnDefault "t" "name" (Some "'x'")), "t", "name".
+  exists w_comment_schema, (ModifyColumnComment "t" "name" (Some "it's")), (ModifyColumnDefault "t" "name" (Some "'x'")), "t", "name".
   eexists. eexists. eexists. repeat split; vm_compute; reflexivity.
 Qed.
-Print Assumptions C04_comment_lost_observation.
-Check C04_comment_lost_observation : exists s a1 a2 t c d1 d2 s',
+Print Assumptions C04_comment_kept_observation.
+Check C04_comment_kept_observation : exists s a1 a2 t c d1 d2 s',
   gen_plan s [a1; a2] = Ok [[SModifyColumn t d1]; [SModifyColumn t d2]] /\ apply_all s [a1; a2] = Ok s' /\
-  cd_comment d1 = Some "note" /\ cd_comment d2 = None /\
-  option_map c_comment (lookup_column s' t c) = Some (Some "note").
+  cd_comment d1 = Some "it''s" /\ cd_comment d2 = Some "it\'s" /\
+  option_map mysql_unescape (cd_comment d1) = Some "it's" /\ option_map mysql_unescape (cd_comment d2) = Some "it's" /\
+  option_map c_comment (lookup_column s' t c) = Some (Some "it's").
 
 (* ------------------------------------------------------------------------------------------------------
    2. The full statement (a definition, not a claim) and its refutations, one per recorded class. *)
@@ -168,15 +178,14 @@ Definition C04_full_statement : Prop :=
 
 Theorem C04_full_refuted : ~ C04_full_statement.
 Proof.
-  intro H. specialize (H w_d19_schema [w_d19_action]).
-  assert (J : judged w_d19_schema [w_d19_action] = true) by (vm_compute; reflexivity).
+  intro H. specialize (H (fst w_d11) (snd w_d11)).
+  assert (J : judged (fst w_d11) (snd w_d11) = true) by (vm_compute; reflexivity).
   specialize (H J). vm_compute in H. discriminate.
 Qed.
 Print Assumptions C04_full_refuted.
 Check C04_full_refuted : ~ C04_full_statement.
 
 Theorem C04_known_classes_refute :
-  refutes w_d19_schema [w_d19_action] known_C04_autoinc_lost /\
   refutes (fst w_d11) (snd w_d11) known_C04_check_missing /\
   refutes (fst w_d2) (snd w_d2) known_C04_drop_before_unreference /\
   refutes (fst w_fkcol) (snd w_fkcol) known_C04_drop_fk_column /\
@@ -196,7 +205,6 @@ Proof.
 Qed.
 Print Assumptions C04_known_classes_refute.
 Check C04_known_classes_refute :
-  refutes w_d19_schema [w_d19_action] known_C04_autoinc_lost /\
   refutes (fst w_d11) (snd w_d11) known_C04_check_missing /\
   refutes (fst w_d2) (snd w_d2) known_C04_drop_before_unreference /\
   refutes (fst w_fkcol) (snd w_fkcol) known_C04_drop_fk_column /\
@@ -537,17 +545,23 @@ Example C04_modify_preserves_hypotheses_satisfiable :
 Proof. repeat split; try (vm_compute; reflexivity). eexists. vm_compute. reflexivity. Qed.
 
 (* ------------------------------------------------------------------------------------------------------
-   6. The MODIFY COLUMN re-declaration in its strongest form.  For every ModifyColumn{Type,Nullable,Default,Comment}
-      on an existing column that is not the auto-increment key (class C04-autoinc-lost-on-modify), whose kept default is
-      not re-quoted (C04_modify_type_requotes_refuted) and — for the three kinds that write no COMMENT clause — that
-      carries no comment (class C04-comment-lost-on-modify), the single MODIFY COLUMN restates ALL SIX attributes of a
-      MySQL column definition exactly as the evolving schema holds them after the action:
-      restated_all d = (type text, NOT NULL, DEFAULT text, COMMENT, AUTO_INCREMENT, inline PRIMARY KEY). *)
+   6. The MODIFY COLUMN re-declaration in its strongest form (after fix N1).  For every ModifyColumn{Type,Nullable,
+      Default,Comment} on an existing column — the auto-increment key column and commented columns included — the single
+      MODIFY COLUMN restates ALL SIX attributes of a MySQL column definition exactly as the evolving schema holds them
+      after the action: restated_all d = (type text, NOT NULL, DEFAULT text, COMMENT as MySQL reads the emitted literal,
+      AUTO_INCREMENT, inline PRIMARY KEY).  Hypotheses left (modify_all_hyp): the kept default is not re-quoted
+      (C04_modify_type_requotes_refuted), and the new comment of a ModifyColumnComment contains no backslash
+      (modify_column_comment.rs doubles quotes and escapes nothing else).
+      History: before N1 the hypothesis also excluded the auto-increment key column and, for Type / Nullable / Default,
+      every column with a comment; pinned then: C04_modify_drops_comment (every input of the class C04-comment-lost-on-
+      modify gets a MODIFY without COMMENT while the schema keeps the comment) and
+      C04_modify_restates_all_unconditional_refuted (computed witness, corpus/mysql/comment_lost_on_modify.json — now a
+      control that holds). *)
 Theorem C04_modify_restates_all : forall s P a t c col s',
   modify_target a = Some (t, c) ->
   lookup_column s t c = Some col ->
   apply_action s a = Ok s' ->
-  modify_all_hyp s a t c col = true ->
+  modify_all_hyp a col = true ->
   exists pre d col',
     gen s P a = Ok (pre ++ [SModifyColumn t d]) /\
     forallb is_update pre = true /\
@@ -560,7 +574,7 @@ Check C04_modify_restates_all : forall s P a t c col s',
   modify_target a = Some (t, c) ->
   lookup_column s t c = Some col ->
   apply_action s a = Ok s' ->
-  modify_all_hyp s a t c col = true ->
+  modify_all_hyp a col = true ->
   exists pre d col',
     gen s P a = Ok (pre ++ [SModifyColumn t d]) /\
     forallb is_update pre = true /\
@@ -574,7 +588,7 @@ Theorem C04_modify_restates_all_plan : forall s acts L i a t c col s',
   modify_target a = Some (t, c) ->
   lookup_column (schema_at s acts i) t c = Some col ->
   apply_action (schema_at s acts i) a = Ok s' ->
-  modify_all_hyp (schema_at s acts i) a t c col = true ->
+  modify_all_hyp a col = true ->
   exists pre d col',
     nth_error L i = Some (pre ++ [SModifyColumn t d]) /\
     forallb is_update pre = true /\
@@ -589,7 +603,7 @@ Check C04_modify_restates_all_plan : forall s acts L i a t c col s',
   modify_target a = Some (t, c) ->
   lookup_column (schema_at s acts i) t c = Some col ->
   apply_action (schema_at s acts i) a = Ok s' ->
-  modify_all_hyp (schema_at s acts i) a t c col = true ->
+  modify_all_hyp a col = true ->
   exists pre d col',
     nth_error L i = Some (pre ++ [SModifyColumn t d]) /\
     forallb is_update pre = true /\
@@ -606,7 +620,7 @@ Theorem C04_modify_restates_all_history : forall (H : list plan) k p sb L i a t 
   modify_target a = Some (t, c) ->
   lookup_column s_i t c = Some col ->
   apply_action s_i a = Ok s' ->
-  modify_all_hyp s_i a t c col = true ->
+  modify_all_hyp a col = true ->
   exists pre d col',
     nth_error L i = Some (pre ++ [SModifyColumn t d]) /\
     forallb is_update pre = true /\
@@ -624,7 +638,7 @@ Check C04_modify_restates_all_history : forall (H : list plan) k p sb L i a t c 
   modify_target a = Some (t, c) ->
   lookup_column s_i t c = Some col ->
   apply_action s_i a = Ok s' ->
-  modify_all_hyp s_i a t c col = true ->
+  modify_all_hyp a col = true ->
   exists pre d col',
     nth_error L i = Some (pre ++ [SModifyColumn t d]) /\
     forallb is_update pre = true /\
@@ -632,63 +646,41 @@ Check C04_modify_restates_all_history : forall (H : list plan) k p sb L i a t c 
     cd_name d = c /\
     restated_all d = declared_all s' t col'.
 
-(* the comment condition cannot be dropped.  For EVERY input of the class: the schema keeps the comment, the MODIFY has
-   none (MySQL's MODIFY COLUMN replaces the whole definition [M9]) *)
-Theorem C04_modify_drops_comment : forall s P a t c col s' m,
-  modify_target a = Some (t, c) ->
-  lookup_column s t c = Some col ->
-  apply_action s a = Ok s' ->
-  modify_default_ok a col = true ->
-  p_comment_lost s a = true ->
-  c_comment col = Some m ->
-  exists pre d col',
-    gen s P a = Ok (pre ++ [SModifyColumn t d]) /\
-    lookup_column s' t c = Some col' /\
-    c_comment col' = Some m /\ cd_comment d = None.
-Proof. exact modify_drops_comment. Qed.
-Print Assumptions C04_modify_drops_comment.
-Check C04_modify_drops_comment : forall s P a t c col s' m,
-  modify_target a = Some (t, c) ->
-  lookup_column s t c = Some col ->
-  apply_action s a = Ok s' ->
-  modify_default_ok a col = true ->
-  p_comment_lost s a = true ->
-  c_comment col = Some m ->
-  exists pre d col',
-    gen s P a = Ok (pre ++ [SModifyColumn t d]) /\
-    lookup_column s' t c = Some col' /\
-    c_comment col' = Some m /\ cd_comment d = None.
+(* what "as MySQL reads the emitted literal" rests on: reading back (default sql_mode, backslash escapes on) what
+   sea-query's escape_string wrote gives the comment, for every comment; reading back the hand-made doubling of quotes
+   gives the comment when it contains no backslash *)
+Theorem C04_comment_escape_read_back : forall m, mysql_unescape (mysql_escape m) = m.
+Proof. exact unescape_escape. Qed.
+Print Assumptions C04_comment_escape_read_back.
+Check C04_comment_escape_read_back : forall m, mysql_unescape (mysql_escape m) = m.
 
-(* hence "all attributes, for every column outside the auto-increment class" is FALSE of the faithful model
-   (witness: corpus/mysql/comment_lost_on_modify.json; finding C04-comment-lost-on-modify) *)
-Theorem C04_modify_restates_all_unconditional_refuted :
-  ~ (forall s P a t c col s',
-       modify_target a = Some (t, c) -> lookup_column s t c = Some col -> apply_action s a = Ok s' ->
-       is_auto_col s t c = false -> modify_default_ok a col = true ->
-       exists pre d col', gen s P a = Ok (pre ++ [SModifyColumn t d]) /\ lookup_column s' t c = Some col' /\
-                          restated_all d = declared_all s' t col').
-Proof. exact modify_restates_all_needs_comment_condition. Qed.
-Print Assumptions C04_modify_restates_all_unconditional_refuted.
-Check C04_modify_restates_all_unconditional_refuted :
-  ~ (forall s P a t c col s',
-       modify_target a = Some (t, c) -> lookup_column s t c = Some col -> apply_action s a = Ok s' ->
-       is_auto_col s t c = false -> modify_default_ok a col = true ->
-       exists pre d col', gen s P a = Ok (pre ++ [SModifyColumn t d]) /\ lookup_column s' t c = Some col' /\
-                          restated_all d = declared_all s' t col').
+Theorem C04_comment_hand_escape_read_back : forall m, no_backslash m = true -> mysql_unescape (hand_escape m) = m.
+Proof. exact unescape_hand_escape. Qed.
+Print Assumptions C04_comment_hand_escape_read_back.
+Check C04_comment_hand_escape_read_back : forall m, no_backslash m = true -> mysql_unescape (hand_escape m) = m.
 
 Example C04_modify_restates_all_hypotheses_satisfiable :
   let col := mkCol "name" (TVarchar 32) false (Some (DStr "'x'")) None None None None None in
+  let idc := pcol "id" (TSimple Integer) false in
+  let cmt := mkCol "v" (TSimple Integer) true None (Some "it's a note") None None None None in
   lookup_column ok_modify_schema "t" "name" = Some col /\
-  modify_all_hyp ok_modify_schema (ModifyColumnType "t" "name" (TSimple Text) None) "t" "name" col = true /\
-  modify_all_hyp ok_modify_schema (ModifyColumnNullable "t" "name" true None) "t" "name" col = true /\
-  modify_all_hyp ok_modify_schema (ModifyColumnDefault "t" "name" (Some "'y'")) "t" "name" col = true /\
-  modify_all_hyp ok_modify_schema (ModifyColumnComment "t" "name" (Some "note")) "t" "name" col = true /\
-  (* a column that already carries a comment: only ModifyColumnComment stays under the hypothesis *)
-  modify_all_hyp w_cm_base (ModifyColumnComment "t" "v" (Some "other")) "t" "v"
-                 (mkCol "v" (TSimple Integer) true None (Some "note") None None None None) = true /\
-  modify_all_hyp w_cm_base w_cm_action "t" "v" (mkCol "v" (TSimple Integer) true None (Some "note") None None None None) = false /\
-  p_comment_lost w_cm_base w_cm_action = true /\
-  gen w_cm_base [] w_cm_action = Ok [SModifyColumn "t" (mkColDef "v" "int" false (Some "0") false false None)].
+  modify_all_hyp (ModifyColumnType "t" "name" (TSimple Text) None) col = true /\
+  modify_all_hyp (ModifyColumnNullable "t" "name" true None) col = true /\
+  modify_all_hyp (ModifyColumnDefault "t" "name" (Some "'y'")) col = true /\
+  modify_all_hyp (ModifyColumnComment "t" "name" (Some "it's a note")) col = true /\
+  (* the auto-increment key column: AUTO_INCREMENT is restated ... *)
+  is_auto_col w_d19_schema "t" "id" = true /\ modify_all_hyp (ModifyColumnType "t" "id" (TSimple BigInt) None) idc = true /\
+  gen w_d19_schema [] (ModifyColumnType "t" "id" (TSimple BigInt) None)
+    = Ok [SModifyColumn "t" (mkColDef "id" "bigint" true None false true None)] /\
+  (* ... and dropped when the new type cannot carry it, as in the baseline *)
+  gen w_d19_schema [] (ModifyColumnType "t" "id" (TSimple Text) None)
+    = Ok [SModifyColumn "t" (mkColDef "id" "text" true None false false None)] /\
+  (* a commented column: the default change restates the comment *)
+  modify_all_hyp (ModifyColumnDefault "t" "v" (Some "0")) cmt = true /\
+  gen [mkTable "t" None [idc; cmt] [CPrimaryKey false ["id"]]] [] (ModifyColumnDefault "t" "v" (Some "0"))
+    = Ok [SModifyColumn "t" (mkColDef "v" "int" false (Some "0") false false (Some "it\'s a note"))] /\
+  (* the one comment the hand-made escaping does not carry over *)
+  modify_all_hyp (ModifyColumnComment "t" "v" (Some "a\b")) cmt = false.
 Proof. vm_compute. repeat split; reflexivity. Qed.
 
 (* ------------------------------------------------------------------------------------------------------
